@@ -296,7 +296,10 @@ func (c *c12) commitmentProofs(ctx context.Context, r *vkit.RNG, env *c12Env, bl
 			p2.SubtreeRoots = append([][]byte{c12clone(p2.SubtreeRoots[0])}, p2.SubtreeRoots...)
 			k.try("sr-prepend+recomputed-commitment", p2, root, merkle.HashFromByteSlices(p2.SubtreeRoots))
 		}
-		mut("sr-drop-last", func(p *blob.CommitmentProof) bool { p.SubtreeRoots = p.SubtreeRoots[:len(p.SubtreeRoots)-1]; return true })
+		mut("sr-drop-last", func(p *blob.CommitmentProof) bool {
+			p.SubtreeRoots = p.SubtreeRoots[:len(p.SubtreeRoots)-1]
+			return true
+		})
 		mut("sr-drop-first", func(p *blob.CommitmentProof) bool { p.SubtreeRoots = p.SubtreeRoots[1:]; return true })
 		if len(honest.SubtreeRoots) > 1 {
 			p := c12CloneCP(honest)
@@ -527,7 +530,10 @@ func (c *c12) commitmentProofs(ctx context.Context, r *vkit.RNG, env *c12Env, bl
 		mut("rp-rows-shifted", func(p *blob.CommitmentProof) bool { p.RowProof.StartRow++; p.RowProof.EndRow++; return true })
 		mut("rp-endrow+1", func(p *blob.CommitmentProof) bool { p.RowProof.EndRow++; return true })
 		mut("rp-startrow>endrow", func(p *blob.CommitmentProof) bool { p.RowProof.StartRow = p.RowProof.EndRow + 1; return true })
-		mut("rp-endrow-maxuint32", func(p *blob.CommitmentProof) bool { p.RowProof.StartRow, p.RowProof.EndRow = 0, math.MaxUint32; return true })
+		mut("rp-endrow-maxuint32", func(p *blob.CommitmentProof) bool {
+			p.RowProof.StartRow, p.RowProof.EndRow = 0, math.MaxUint32
+			return true
+		})
 		mut("rp-endrow-wraps-to-count", func(p *blob.CommitmentProof) bool {
 			// StartRow - EndRow chosen so that the uint32 difference + 1 wraps to the row count
 			p.RowProof.StartRow = math.MaxUint32
@@ -541,6 +547,17 @@ func (c *c12) commitmentProofs(ctx context.Context, r *vkit.RNG, env *c12Env, bl
 		{
 			p := &blob.CommitmentProof{}
 			k.try("all-empty+hash-of-nothing", p, root, merkle.HashFromByteSlices(nil))
+			// a fully emptied proof whose row range is inverted: the uint32 row count wraps to the 0 row
+			// roots it carries (added after seeded change C12-a was missed)
+			for _, sr := range []uint32{1, 7, uint32(nrp) + 1, math.MaxUint32} {
+				q := &blob.CommitmentProof{}
+				q.RowProof.StartRow, q.RowProof.EndRow = sr, sr-1
+				k.try("all-empty+inverted-row-range+hash-of-nothing", q, root, merkle.HashFromByteSlices(nil))
+			}
+			// the honest subtree roots and commitment, but no row at all (nothing ties them to the data root)
+			q := &blob.CommitmentProof{SubtreeRoots: c12CloneCP(honest).SubtreeRoots}
+			q.RowProof.StartRow, q.RowProof.EndRow = 1, 0
+			k.try("honest-subtree-roots+no-rows+inverted-row-range", q, r.Bytes(32), rec.Commitment)
 		}
 		// metadata that Verify does not look at (counted, not judged false: the claim stays true)
 		mut("nsid-other", func(p *blob.CommitmentProof) bool { p.NamespaceID = c12flip(r, p.NamespaceID); return true })
